@@ -19,7 +19,7 @@ ORDER_CLASS = {'characteristics_sorted_by_priority', 'characteristics_with_cccd_
 
 def run(chk, facts, tier):
     chk.rule('producers-same-order', 'find_notification_data(value), find_notification_data_by_index(i) and find_notification_by_uuid::data() all use the priority-sorted characteristic list (or the list derived from it)', floor=3)
-    chk.rule('order-witness', 'for witness servers with priorities: sorted list entry i has cccd_position == cccd_indices[i] and find_notification_by_uuid yields cccd index i for that characteristic (evaluated by the compiler)', floor=4)
+    chk.rule('order-witness', 'for witness servers with priorities (one with the same characteristic UUID in two services): sorted list entry i has cccd_position == cccd_indices[i] and find_notification_by_uuid yields cccd index i for that characteristic (evaluated by the compiler)', floor=4)
     chk.rule('send-only-if-subscribed', 'l2cap_output: the PDU is produced only under flags(data.client_characteristic_configuration_index()) & required_flag, required_flag chosen by the dequeued kind, opcode by the same kind', floor=1)
     chk.rule('same-attribute', 'l2cap_output writes handle_by_index(data.attribute_table_index()) and reads attribute_at(data.attribute_table_index()) with that index', floor=1)
     chk.rule('request-kind-forwarded', 'notify() forwards notification_type::notification and indicate() notification_type::indication together with the looked-up data', floor=4)
@@ -87,7 +87,7 @@ namespace wit {
 }
 '''
     obl = []
-    for name, n in (('srv_prio', 5), ('srv_nine', 9), ('srv_layout', 3)):
+    for name, n in (('srv_prio', 5), ('srv_nine', 9), ('srv_layout', 3), ('srv_dup_uuid', 3)):
         for i in range(n):
             src += 'VERIF_ASSERT( "order:%s:%d", wit::order_check< wit::%s, %d >::value );\n' % (name, i, name, i)
             obl.append(('order:%s:%d' % (name, i), '%s: sorted entry %d agrees with cccd_indices[%d] and the by-UUID lookup' % (name, i, i)))
